@@ -49,6 +49,12 @@ def cases(tier, seed):
                     "p": {"maxlen": 5, "na_prob": 0.1, "waters": [0, 2], "variant_prob": 0.35}, "mut": rng.choice(["none", "resseq4",
                                                                                             "icode", "offset", "negnum"]),
                     "opts": [f"--ff={common.FFS[i % 6]}"] + flags})
+        if i % 10 == 3:
+            # fixed-column output of an mmCIF input under an output naming scheme (the writer's mmCIF path meets
+            # renamed residues and atoms: CHARMM writes terminal atoms under the residue name TER)
+            out[-1].update(enc="cif", mut="none",
+                           opts=[f"--ff={common.FFS[i % 6]}", "--ffout=" + ["CHARMM", "CHARMM", "AMBER"][(i // 10) % 3]] +
+                           (["--keep-chain"] if (i // 10) % 2 else []))
     return out
 
 
@@ -294,7 +300,7 @@ def run_e2e(spec, res):
         text, _info = pdbtext.apply(m["items"], [rng.choice(["altloc_interleaved", "altloc_blocked"])], rng)
         res.count("e2e_altloc_inputs")
     suffix = ".pdb"
-    if spec["seed"] % 4 == 3 and spec["mut"] in ("none", "icode", "negnum"):
+    if spec.get("enc") == "cif" or (spec["seed"] % 4 == 3 and spec["mut"] in ("none", "icode", "negnum")):
         # the same records through the mmCIF reader (the writer takes another path for mmCIF input: no TER lines)
         from ..gen import cifwriter
         its = [dict(a, chain=a["chain"] or "A") if isinstance(a, dict) else a for a in m["items"]]
